@@ -16,18 +16,29 @@
                         (Rust integer fallback); beyond that a debug build panics
                         and a release build wraps.  No package can hold 2^31
                         functions, so the hypothesis is not a restriction in practice.
+     `aggregate_count`  the same by the NUMBER of rejecting blocks: `Err` iff it is
+                        positive, for every number; `aggregate_every_count`: every
+                        number is realised (`a` accepting + `n` rejecting blocks).
   T1 `discovery_exact`  for every package whose declared names are identifiers
                         (explicit predicate; `#`/`.` are not XID_Continue): the key
                         list `get_tests` maps over is a permutation of the test
                         blocks of all modules (each once) and EQUALS the sorted
                         list of their keys — whatever the hash-map order.
+     `discovery_runs`   the rest of `get_tests` (strip_prefix, get_function look-up,
+                        unwraps): no panic, one handle per block of every module at
+                        every depth, each the table's entry of its key;
+     `run_package_truthful`  `run_tests` on such a package: every block once, in
+                        sorted key order, `Ok` iff every declared verdict is accept.
   T3 `no_shadow_*`      `fn x`/`test x` occupy different keys (coexist); a module
                         declares without error iff its keys are distinct, two
                         tests (or two functions) of one name are an error; no
                         path of identifiers spells the key of a test, so
                         `get_function`/script calls cannot reach one, and
                         `get_function "x"` is the function.
-  T4 `cli_exit_*`       decision table of `cli`: FAILURE exactly for compile error
+  T4 `cli_exit_*`       decision table of `cli` over the exit STATUS (`ExitCode` is a
+                        number, `failed` = status ≠ 0; `cli_exit_test_count`:
+                        `failed` = (rejecting blocks > 0) for every count):
+                        failure exactly for compile error
                         (`check`), compile error or a rejecting test (`test`),
                         compile error or a missing/mistyped entry (`run`); `run`
                         calls the entry exactly once on success and never otherwise.
@@ -87,6 +98,62 @@ example :
     runLoop (ε := Unit) true [] [] = (.ok (.Ok ()), []) := by
   decide
 
+/-- T2 by count.  For EVERY number of rejecting blocks (`failureCount tests` ranges over all of
+    `Nat` below the counter width, not over sampled values): the loop ends in `Err` iff that
+    number is positive.  Any arithmetic on the count between the loop and the result
+    (truncation, modulus, comparison with another constant) falsifies this. -/
+theorem aggregate_count {ε} (dbg : Bool) (tests : List TestCase) (hlen : tests.length < 2^31) (log : List Event) :
+    ∃ r, runLoop (ε := ε) dbg tests log = (.ok r, log ++ tests.map evOf) ∧
+      (r = .Err () ↔ 0 < failureCount tests) := by
+  obtain ⟨r, hr, hiff⟩ := aggregate_iff (ε := ε) dbg tests hlen log
+  refine ⟨r, hr, ?_⟩
+  rw [failureCount_pos]
+  rcases r with ⟨⟨⟩⟩ | ⟨⟨⟩⟩
+  · have := hiff.mp rfl
+    constructor
+    · intro h; cases h
+    · rintro ⟨t, hm, hp⟩; exact absurd (this t hm) hp
+  · have hn : ¬ ∀ t ∈ tests, t.func.info.verdict = .Accept () := fun h => by
+      have := hiff.mpr h; cases this
+    constructor
+    · intro _
+      exact Classical.byContradiction fun hc =>
+        hn (fun t hm => Classical.byContradiction fun hp => hc ⟨t, hm, hp⟩)
+    · intro _; rfl
+
+/-- … and every count is realised: `a` accepting and `n` rejecting blocks, for every `n` —
+    in particular `n = 256·k`, which a status or counter truncated to 8 bits would map to 0. -/
+theorem aggregate_every_count {ε} (dbg : Bool) (acc rej : TestCase)
+    (hacc : acc.func.info.verdict = .Accept ()) (hrej : rej.func.info.verdict = .Reject ())
+    (a n : Nat) (h : a + n < 2^31) :
+    (runLoop (ε := ε) dbg (List.replicate a acc ++ List.replicate n rej) []).1
+      = .ok (if n = 0 then .Ok () else .Err ()) := by
+  have hcount := failureCount_replicate acc rej hacc hrej a n
+  obtain ⟨r, hr, hiff⟩ := aggregate_count (ε := ε) dbg (List.replicate a acc ++ List.replicate n rej)
+    (by simpa using h) []
+  rw [hr, hcount] at *
+  by_cases h0 : n = 0
+  · subst h0
+    rcases r with ⟨⟨⟩⟩ | ⟨⟨⟩⟩
+    · rfl
+    · exact absurd (hiff.mp rfl) (by omega)
+  · have : r = .Err () := hiff.mpr (by omega)
+    simp [this, h0]
+
+/-- non-vacuity at the boundary: 256 rejecting blocks are 256 failures, and the run fails. -/
+example :
+    let rej : TestCase := ⟨['r'], ⟨['r'], ⟨testSig, .Reject ()⟩⟩⟩
+    failureCount (List.replicate 256 rej) = 256 ∧
+    (runLoop (ε := Unit) true (List.replicate 256 rej) []).1 = .ok (.Err ()) := by
+  have hc := failureCount_replicate ⟨['a'], ⟨['a'], ⟨testSig, .Accept ()⟩⟩⟩
+    ⟨['r'], ⟨['r'], ⟨testSig, .Reject ()⟩⟩⟩ rfl rfl 0 256
+  rw [List.replicate_zero, List.nil_append] at hc
+  refine ⟨hc, ?_⟩
+  have h := aggregate_every_count (ε := Unit) true ⟨['a'], ⟨['a'], ⟨testSig, .Accept ()⟩⟩⟩
+    ⟨['r'], ⟨['r'], ⟨testSig, .Reject ()⟩⟩⟩ rfl rfl 0 256 (by omega)
+  rw [List.replicate_zero, List.nil_append] at h
+  exact h.trans (by simp)
+
 /-- `run_tests` is `get_tests` followed by the loop. -/
 theorem run_tests_eq {ε} (dbg : Bool) (module : Module) (tests : List TestCase)
     (h : get_tests dbg module = .ok tests) (log : List Event) :
@@ -104,6 +171,18 @@ theorem run_tests_truthful {ε} (dbg : Bool) (module : Module) (tests : List Tes
   rw [run_tests_eq dbg module tests h]
   exact aggregate_iff dbg tests hlen log
 
+/-- The public entry points of src/pipeline.rs add nothing of their own: with or without a
+    context, `Package::run_tests` is `run_tests` on the package's module, and
+    `Package::get_tests` is `get_tests` (so T1/T2 speak about all three). -/
+theorem package_entry_points {ε} (dbg : Bool) (p : Package) (log : List Event) :
+    Package_run_tests (ε := ε) dbg p log = run_tests dbg p.module () log ∧
+    Package_run_tests_ctx (ε := ε) dbg p () log = run_tests dbg p.module () log ∧
+    Package_get_tests dbg p = get_tests dbg p.module := by
+  refine ⟨?_, ?_, ?_⟩
+  · simp only [Package_run_tests]
+  · simp only [Package_run_tests_ctx, id]
+  · simp only [Package_get_tests]
+
 /-! ## T4 — the CLI -/
 
 def compileOk (W : World) : Bool := W.readOk && W.parseOk && W.typeOk
@@ -116,18 +195,21 @@ def isEntryCall : Event → Bool
   | .calledEntry _ => true
   | _ => false
 
+/-- `check`: the process reports failure (non-zero status) exactly on a compile error; no
+    script code runs. -/
 theorem cli_exit_check (dbg : Bool) (W : World) (file : TR.Path) :
-    ∃ log, cli dbg W ⟨.Check file⟩ W.runtime [] = (.ok (if compileOk W then .SUCCESS else .FAILURE), log)
+    ∃ code log, cli dbg W ⟨.Check file⟩ W.runtime [] = (.ok code, log) ∧ code.failed = !compileOk W
       ∧ log.filter isRanTest = [] ∧ log.filter isEntryCall = [] := by
   obtain ⟨hc, r, p, t, tb⟩ := W
   cases r <;> cases p <;> cases t <;>
     simp [cli, cli_inner_result, cli_inner, Run.reify, compileOk, World.FileTree_read, World.parse, World.typecheck,
-      Cli.try_, Run.bind_apply, isRanTest, isEntryCall]
+      Cli.try_, Run.bind_apply, isRanTest, isEntryCall] <;>
+    exact ⟨_, _, ⟨rfl, rfl⟩, rfl, by simp, by simp⟩
 
 theorem cli_exit_test (dbg : Bool) (W : World) (hctx : W.hasCtx = false) (file : TR.Path)
     (tests : List TestCase) (hget : get_tests dbg ⟨W.table⟩ = .ok tests) (hlen : tests.length < 2^31) :
     ∃ code log, cli dbg W ⟨.Test file⟩ W.runtime [] = (.ok code, log) ∧
-      (code = .FAILURE ↔ (compileOk W = false ∨ ∃ t ∈ tests, t.func.info.verdict ≠ .Accept ())) ∧
+      (code.failed = true ↔ (compileOk W = false ∨ ∃ t ∈ tests, t.func.info.verdict ≠ .Accept ())) ∧
       log.filter isRanTest = (if compileOk W then tests.map evOf else []) ∧
       log.filter isEntryCall = [] := by
   obtain ⟨hc, r, p, t, tb⟩ := W
@@ -147,7 +229,7 @@ theorem cli_exit_test (dbg : Bool) (W : World) (hctx : W.hasCtx = false) (file :
     | nil => exact ⟨rfl, rfl⟩
     | cons a l ih => simp [List.filter_cons, evOf, isRanTest, isEntryCall] at ih ⊢
   rcases res with ⟨⟨⟩⟩ | ⟨⟨⟩⟩
-  · refine ⟨.SUCCESS, _, rfl, ?_, ?_, ?_⟩
+  · refine ⟨_, _, rfl, ?_, ?_, ?_⟩
     · have := hiff.mp rfl
       simp; exact this
     · rw [List.filter_append, (hflt tests).1]; rfl
@@ -158,9 +240,8 @@ theorem cli_exit_test (dbg : Bool) (W : World) (hctx : W.hasCtx = false) (file :
       · simp only [List.mem_cons, List.mem_nil_iff, or_false] at h
         rcases h with rfl | rfl | rfl | rfl | rfl | rfl <;> rfl
       · simpa using h2 a h
-  · refine ⟨.FAILURE, _, rfl, ?_, ?_, ?_⟩
-    · simp only [true_iff]
-      have : ¬ ∀ t ∈ tests, t.func.info.verdict = .Accept () := fun h => by
+  · refine ⟨_, _, rfl, ?_, ?_, ?_⟩
+    · have : ¬ ∀ t ∈ tests, t.func.info.verdict = .Accept () := fun h => by
         have := hiff.mpr h; cases this
       simpa using this
     · rw [List.filter_append, (hflt tests).1]; rfl
@@ -171,6 +252,24 @@ theorem cli_exit_test (dbg : Bool) (W : World) (hctx : W.hasCtx = false) (file :
       · simp only [List.mem_cons, List.mem_nil_iff, or_false] at h
         rcases h with rfl | rfl | rfl | rfl | rfl | rfl <;> rfl
       · simpa using h2 a h
+
+/-- T4 (`test`) by count: on a script that compiles, the process reports failure iff the number
+    of rejecting blocks is positive — for EVERY such number (the status is a function of
+    `failures > 0` only; nothing of the count's magnitude may leak into "zero or not"). -/
+theorem cli_exit_test_count (dbg : Bool) (W : World) (hctx : W.hasCtx = false) (hc : compileOk W = true)
+    (file : TR.Path) (tests : List TestCase) (hget : get_tests dbg ⟨W.table⟩ = .ok tests)
+    (hlen : tests.length < 2^31) :
+    ∃ code log, cli dbg W ⟨.Test file⟩ W.runtime [] = (.ok code, log) ∧
+      code.failed = decide (0 < failureCount tests) := by
+  obtain ⟨code, log, hrun, hiff, -, -⟩ := cli_exit_test dbg W hctx file tests hget hlen
+  refine ⟨code, log, hrun, ?_⟩
+  rw [hc] at hiff
+  simp only [Bool.true_eq_false, false_or] at hiff
+  rw [← failureCount_pos] at hiff
+  by_cases hp : 0 < failureCount tests
+  · simp [hp, hiff.mpr hp]
+  · have : code.failed ≠ true := fun h => hp (hiff.mp h)
+    simp [hp, this]
 
 /-- `get_function` fails exactly for a missing key or a different signature. -/
 theorem entry_status (t : Table) (want : Sig) (name : Name) :
@@ -183,8 +282,8 @@ theorem entry_status (t : Table) (want : Sig) (name : Name) :
 
 theorem cli_exit_run (dbg : Bool) (W : World) (hctx : W.hasCtx = false) (file : TR.Path) (function : Name) :
     ∃ code log, cli dbg W ⟨.Run file function⟩ W.runtime [] = (.ok code, log) ∧
-      (code = .FAILURE ↔ (compileOk W = false ∨ ∃ e, get_function W.table entrySig function = .Err e)) ∧
-      log.filter isEntryCall = (if code = .SUCCESS then [.calledEntry (pkgDot ++ function)] else []) ∧
+      (code.failed = true ↔ (compileOk W = false ∨ ∃ e, get_function W.table entrySig function = .Err e)) ∧
+      log.filter isEntryCall = (if code.failed then [] else [.calledEntry (pkgDot ++ function)]) ∧
       log.filter isRanTest = [] := by
   obtain ⟨hc, r, p, t, tb⟩ := W
   simp only at hctx
@@ -196,8 +295,7 @@ theorem cli_exit_run (dbg : Bool) (W : World) (hctx : W.hasCtx = false) (file : 
   all_goals first | exact ⟨_, _, ⟨rfl, rfl⟩, rfl, by simp [isEntryCall], by simp [isRanTest]⟩ | skip
   cases hg : get_function tb entrySig function with
   | Err e =>
-    refine ⟨.FAILURE, [Event.stage 0, Event.stage 1, Event.stage 2, Event.stage 3, Event.stage 4, Event.stage 5], ?_, ?_, ?_, ?_⟩
-    · simp [RResult_map_err]
+    refine ⟨_, [Event.stage 0, Event.stage 1, Event.stage 2, Event.stage 3, Event.stage 4, Event.stage 5], rfl, ?_, ?_, ?_⟩
     · simp
     · simp [isEntryCall]
     · simp [isRanTest]
@@ -209,9 +307,8 @@ theorem cli_exit_run (dbg : Bool) (W : World) (hctx : W.hasCtx = false) (file : 
       | some i =>
         by_cases hs : i.sig = entrySig <;> simp [hf, hs] at hg
         rw [← hg]
-    refine ⟨.SUCCESS, [Event.stage 0, Event.stage 1, Event.stage 2, Event.stage 3, Event.stage 4, Event.stage 5,
-      Event.calledEntry f.key], ?_, ?_, ?_, ?_⟩
-    · simp [RResult_map_err, World.call]
+    refine ⟨_, [Event.stage 0, Event.stage 1, Event.stage 2, Event.stage 3, Event.stage 4, Event.stage 5,
+      Event.calledEntry f.key], rfl, ?_, ?_, ?_⟩
     · simp
     · simp [isEntryCall, hk, List.filter_cons]
     · simp [isRanTest]
@@ -221,11 +318,12 @@ example :
     let mk (k : Name) (s : Sig) (v : Verdict Unit Unit) : Name × FnInfo := (k, ⟨s, v⟩)
     let W : World := ⟨false, true, true, true,
       [mk (pkgDot ++ ['m']) entrySig (.Accept ()), mk (pkgDot ++ ['t', 'e', 's', 't', '#', 'a']) testSig (.Reject ())]⟩
-    (cli true W ⟨.Check ⟨⟩⟩ W.runtime []).1 = .ok .SUCCESS ∧
-    (cli true W ⟨.Test ⟨⟩⟩ W.runtime []).1 = .ok .FAILURE ∧
-    (cli true W ⟨.Run ⟨⟩ ['m']⟩ W.runtime []).1 = .ok .SUCCESS ∧
-    (cli true W ⟨.Run ⟨⟩ ['n']⟩ W.runtime []).1 = .ok .FAILURE ∧
-    (cli true { W with typeOk := false } ⟨.Check ⟨⟩⟩ W.runtime []).1 = .ok .FAILURE := by
+    let failed (o : Out CliErr ExitCode) : Option Bool := match o with | .ok c => some c.failed | _ => none
+    failed (cli true W ⟨.Check ⟨⟩⟩ W.runtime []).1 = some false ∧
+    failed (cli true W ⟨.Test ⟨⟩⟩ W.runtime []).1 = some true ∧
+    failed (cli true W ⟨.Run ⟨⟩ ['m']⟩ W.runtime []).1 = some false ∧
+    failed (cli true W ⟨.Run ⟨⟩ ['n']⟩ W.runtime []).1 = some true ∧
+    failed (cli true { W with typeOk := false } ⟨.Check ⟨⟩⟩ W.runtime []).1 = some true := by
   decide
 
 /-! ## T1 — discovery -/
@@ -249,6 +347,114 @@ theorem discovery_exact (X : XID) (F : XIDFacts X) (mods : List Mod)
     rfl
   rw [heq]
   exact ⟨(sort_perm _).trans hf, sort_eq_of_perm hf⟩
+
+/-- T1, end to end over the GENERATED `get_tests` (filter, sort, `strip_prefix`, the
+    `get_function::<fn() -> Verdict<(), ()>>` look-up and both `unwrap`s).  For every package
+    whose declared names are identifiers and whose function table holds its items under distinct
+    keys (a hash map), in whatever order: `get_tests` does not panic and returns one handle per
+    test block of every module, at every depth — the handles' keys are the sorted list of the
+    blocks' keys, and each handle is the table's entry of its key (so it runs that block). -/
+theorem discovery_runs (X : XID) (F : XIDFacts X) (mods : List Mod)
+    (hid : ∀ m ∈ mods, ∀ d ∈ m.decls, isIdent X d.name = true)
+    (dbg : Bool) (module : Module)
+    (hperm : module.functions.Perm (packageTable test_fn_name_mir test_sig_mir mods))
+    (hnodup : (Table.keys module.functions).Nodup) :
+    ∃ cs, get_tests dbg module = .ok cs ∧
+      cs.map (fun c => c.func.key) = RStr.sort (testKeys test_fn_name_mir mods) ∧
+      ∀ c ∈ cs, (c.func.key, c.func.info) ∈ packageTable test_fn_name_mir test_sig_mir mods ∧
+        c.func.info.sig = testSig := by
+  have hkeys : (Table.keys module.functions).Perm (Table.keys (packageTable test_fn_name_mir test_sig_mir mods)) :=
+    hperm.map _
+  obtain ⟨hp, hs⟩ := discovery_exact X F mods hid module hkeys
+  have hget : get_tests dbg module = List.mapM (get_tests_case dbg module) (get_tests_keys module) := by
+    simp [get_tests, get_tests_keys, RIter.into_iter, RIter.collect, RIter.map, RIter.filter, Id.run]
+    rfl
+  have hstep : ∀ k ∈ get_tests_keys module, ∃ c, get_tests_case dbg module k = .ok c ∧
+      (c.func.key = k ∧ (c.func.key, c.func.info) ∈ packageTable test_fn_name_mir test_sig_mir mods ∧
+        c.func.info.sig = testSig) := by
+    intro k hk
+    obtain ⟨v, rest, hmem, rfl⟩ := testKeys_mem_table test_fn_name_mir test_sig_mir mods k (hp.subset hk)
+    obtain ⟨c, hc, hf⟩ := get_tests_case_spec dbg module rest ⟨test_sig_mir, v⟩ hnodup (hperm.symm.subset hmem) rfl
+    exact ⟨c, hc, by rw [hf]; exact ⟨rfl, hmem, rfl⟩⟩
+  obtain ⟨cs, hcs, hall⟩ := mapM_ok_forall₂ _ _ (get_tests_keys module) hstep
+  have hk := All2.keys hall
+  exact ⟨cs, hget.trans hcs, hk.1.trans hs, hk.2⟩
+
+/-- The first sentence of the property, end to end over the GENERATED `run_tests`: on such a
+    package, `run_tests` runs every test block of every module exactly once, in the sorted order
+    of the blocks' keys (a function of the names only), and returns `Ok` iff every block's
+    declared verdict is accept. -/
+theorem run_package_truthful {ε} (X : XID) (F : XIDFacts X) (mods : List Mod)
+    (hid : ∀ m ∈ mods, ∀ d ∈ m.decls, isIdent X d.name = true)
+    (dbg : Bool) (module : Module)
+    (hperm : module.functions.Perm (packageTable test_fn_name_mir test_sig_mir mods))
+    (hnodup : (Table.keys module.functions).Nodup)
+    (hsmall : (testKeys test_fn_name_mir mods).length < 2^31) (log : List Event) :
+    ∃ r, run_tests (ε := ε) dbg module () log
+        = (.ok r, log ++ (RStr.sort (testKeys test_fn_name_mir mods)).map Event.ranTest) ∧
+      (r = .Ok () ↔ ∀ m ∈ mods, ∀ n v, Decl.test n v ∈ m.decls → v = .Accept ()) := by
+  obtain ⟨cs, hget, hkeys, hinfo⟩ := discovery_runs X F mods hid dbg module hperm hnodup
+  have hlen : cs.length < 2^31 := by
+    have := congrArg List.length hkeys
+    rw [List.length_map, (sort_perm _).length_eq] at this
+    omega
+  obtain ⟨r, hr, hiff⟩ := run_tests_truthful (ε := ε) dbg module cs hget hlen log
+  have hev : cs.map evOf = (RStr.sort (testKeys test_fn_name_mir mods)).map Event.ranTest := by
+    rw [← hkeys, List.map_map]; rfl
+  refine ⟨r, by rw [hr, hev], hiff.trans ?_⟩
+  have hnd : (Table.keys (packageTable test_fn_name_mir test_sig_mir mods)).Nodup := by
+    have hp : (Table.keys module.functions).Perm (Table.keys (packageTable test_fn_name_mir test_sig_mir mods)) :=
+      hperm.map _
+    exact hp.nodup_iff.mp hnodup
+  constructor
+  · intro h m hm n v hd
+    have hk := decl_mem_testKeys test_fn_name_mir mods m hm n v hd
+    have hk' : fullName m.path (test_fn_name_mir n) ∈ cs.map (fun c => c.func.key) := by
+      rw [hkeys]; exact (sort_perm _).symm.subset hk
+    obtain ⟨c, hc, hck⟩ := List.mem_map.mp hk'
+    have h1 := (hinfo c hc).1
+    have h2 : (fullName m.path (test_fn_name_mir n), (⟨test_sig_mir, v⟩ : FnInfo)) ∈
+        packageTable test_fn_name_mir test_sig_mir mods := by
+      simp only [packageTable, List.mem_flatMap, moduleTable, List.mem_map]
+      exact ⟨m, hm, .test n v, hd, rfl⟩
+    rw [hck] at h1
+    have := mem_nodup_unique _ _ _ _ hnd h1 h2
+    have hv := h c hc
+    rw [this] at hv
+    exact hv
+  · intro h c hc
+    have hk : c.func.key ∈ testKeys test_fn_name_mir mods := by
+      have : c.func.key ∈ cs.map (fun c => c.func.key) := List.mem_map.mpr ⟨c, hc, rfl⟩
+      rw [hkeys] at this
+      exact (sort_perm _).subset this
+    simp only [testKeys, List.mem_flatMap, List.mem_map, List.mem_filter] at hk
+    obtain ⟨m, hm, d, ⟨hd, ht⟩, hkey⟩ := hk
+    cases d with
+    | fn n i => simp [Decl.isTest] at ht
+    | test n v =>
+      have h2 : (c.func.key, (⟨test_sig_mir, v⟩ : FnInfo)) ∈ packageTable test_fn_name_mir test_sig_mir mods := by
+        rw [← hkey]
+        simp only [packageTable, List.mem_flatMap, moduleTable, List.mem_map]
+        exact ⟨m, hm, .test n v, hd, rfl⟩
+      have := mem_nodup_unique _ _ _ _ hnd (hinfo c hc).1 h2
+      rw [this]
+      exact h m hm n v hd
+
+/-- non-vacuity: a package with blocks at depths 0, 1 and 3 (none at depth 2), a function that
+    shares a block's name, the table in reverse order: all three blocks are found and run in
+    sorted key order, and the run fails because the deepest block rejects. -/
+example :
+    let a : Name := ['a']
+    let mods : List Mod := [⟨[], [.fn a ⟨entrySig, .Accept ()⟩, .test a (.Accept ())]⟩,
+                            ⟨[['m']], [.test a (.Accept ())]⟩,
+                            ⟨[['m'], ['u'], ['s']], [.test a (.Reject ())]⟩]
+    let module : Module := ⟨(packageTable test_fn_name_mir test_sig_mir mods).reverse⟩
+    (Table.keys module.functions).Nodup ∧
+    run_tests (ε := Unit) true module () []
+      = (.ok (.Err ()), [.ranTest (pkgDot ++ ['m', '.', 't', 'e', 's', 't', '#', 'a']),
+                          .ranTest (pkgDot ++ ['m', '.', 'u', '.', 's', '.', 't', 'e', 's', 't', '#', 'a']),
+                          .ranTest (pkgDot ++ ['t', 'e', 's', 't', '#', 'a'])]) := by
+  decide
 
 /-- the type checker and the MIR lowerer agree on the name and signature of a test, and the
     runner asks for exactly that signature -/
